@@ -22,10 +22,13 @@ def run(tier):
     facts = F.load("all")
     entries = S.entry_points(facts)
     defaults(res, facts)
-    c17.ready(res, facts, "C13.R2", c13=True)
-    removers(res, facts)
+    sem = c17.semantic_build(res, facts, entries, ("C13.R2", "C13.R4"))
+    if not sem:
+        c17.ready(res, facts, "C13.R2", c13=True)
+    removers(res, facts, semantic=sem)
     flag_writers(res, facts)
-    c17.order(res, facts, entries, "C13.R4")
+    if not sem:
+        c17.order(res, facts, entries, "C13.R4")
     persistence(res, facts, entries)
     res.floor("C13.R1", 4)
     res.floor("C13.R2", 4 + 1)
@@ -91,8 +94,9 @@ def defaults(res, facts):
             res.violate("C13.R1", b["id"], "default " + k, "PasetoBuilder::default must set %s to %s rendered as RFC 3339 through its typed claim on every path; found %s" % (k, w, got), file=v.file(), line=got[3] if got else b["line"])
 
 
-def removers(res, facts):
+def removers(res, facts, semantic=False):
     """R2: no other function removes "exp" (remove_claim call sites with their key terms)"""
+    builds = set(e.id for e in S.select(S.entry_points(facts), "prelude", "producer"))
     for bid, b in sorted(facts.bodies.items()):
         if not re.search(r"prelude::|generic::builders", bid):
             continue
@@ -101,6 +105,8 @@ def removers(res, facts):
         for bi, t in v.find_calls(GB + r"remove_claim$"):
             k = N.norm(v.op_term(t["args"][1]))
             where_ok = bool(re.search(PB + r"verify_ready_to_build$", bid)) and k == T("const", "exp") or (bool(re.search(PB + r"set_claim$", bid)) and not (k.op == "const" and k.name == "exp"))
+            if not where_ok and semantic and k == T("const", "exp") and M.only_reached_from(facts, bid, builds):
+                where_ok = True    # part of build: when it runs is decided by the build contract (removed iff acknowledged)
             res.oblige(where_ok)
             if where_ok:
                 res.inst("C13.R2", "%s removes %s" % (M.short(bid), M.show(k)[:40]))
